@@ -661,7 +661,7 @@ std::string gen_bool_scenario(Rng &r, unsigned d, bool big_ok) {
   // what happens between the definition and the assumption
   unsigned n = r.below(3);
   for (unsigned i = 0; i < n; i++) {
-    unsigned what = r.below(10);
+    unsigned what = r.below(12);
     if (what < 5 && !used.empty()) o << gen_modify(r, d, used[r.below(used.size())], big_ok);
     else if (what == 5) { // redefine a Boolean of the chain
       unsigned bb = chained && r.coin() ? b : r.below(NB);
@@ -675,6 +675,22 @@ std::string gen_bool_scenario(Rng &r, unsigned d, bool big_ok) {
     } else if (what == 6) o << " (joineq " << d << " " << r.below(NP) << ")";
     else if (what == 7) { unsigned e = (d + 1 + r.below(NP - 1)) % NP; o << " (copy " << e << " " << d << ")" << (used.empty() ? "" : gen_modify(r, e, used[r.below(used.size())], big_ok)) << " (join " << d << " " << d << " " << e << ")"; }
     else if (what == 8) o << " (widen " << d << " " << d << " " << r.below(NP) << ")";
+    else if (what >= 10) {
+      // meet / narrowing with a copy that recorded something NEW about a variable the definition depends on after it was
+      // modified (what the copy knows must not make the stale recorded constraint usable again); the copy shares most
+      // witnesses with the original, so the meet is not empty
+      unsigned e = (d + 1 + r.below(NP - 1)) % NP;
+      if (!used.empty()) o << gen_modify(r, d, used[r.below(used.size())], big_ok);
+      o << " (copy " << e << " " << d << ")";
+      unsigned b3 = (fin + 1 + r.below(NB - 1)) % NB;
+      std::string x = used.empty() ? V(r.below(NV)) : V(used[r.below(used.size())]);
+      o << " (bcst " << e << " " << B(b3) << " (le (lin " << -r.range(50, 500) << " (-1 " << x << "))))";
+      switch (r.below(3)) {
+      case 0: o << " (meet " << d << " " << d << " " << e << ")"; break;
+      case 1: o << " (meeteq " << d << " " << e << ")"; break;
+      default: o << " (narrow " << d << " " << d << " " << e << ")"; break;
+      }
+    }
     else o << " (assume " << d << " " << gen_cst(r, g, big_ok, nullptr, true) << ")";
   }
   o << " (bassume " << d << " " << B(fin) << " " << (r.below(3) == 0 ? 1 : 0) << ")";
